@@ -130,7 +130,7 @@ def generate(rng, tier):
             if not init or not uni:
                 uni, init = units + extra, [list(u) for u in units]
         case.update({"mode": "custom", "demands": demands, "universe": uni, "initial": init,
-                     "peer": rng.choice(["best", "best", "first_improving", "worst_improving"])})
+                     "peer": rng.choice(["best", "best", "first_improving", "worst_improving", "always_best"])})
     case["max_nodes"] = rng.choice([50, 200]) if case["solver"] == "bp" else None
     case["max_iter"] = rng.choice([None, None, 20, 100])
     case["faults"] = {
@@ -157,7 +157,13 @@ def make_peer(case, stats, clock):
         scored = [(1.0 - sum(d * a for d, a in zip(duals, c)), c) for c in uni]
         imp = [(rc, c) for rc, c in scored if rc < -1e-7]
         if not imp:
+            if kind == "always_best":  # a peer that always hands back its best column with its true reduced cost (>= 0 here)
+                rc, c = min(scored)
+                return c, rc
             return None, 0.0
+        if kind == "always_best":
+            rc, c = min(imp)
+            return c, rc
         if kind == "best":
             rc, c = min(imp)
         elif kind == "first_improving":
